@@ -17,3 +17,6 @@ pub assume_specification<T, E> [ Option::<std::result::Result<T, E>>::transpose 
 	ensures out == (match o { Some(Ok(v)) => Ok::<Option<T>, E>(Some(v)), Some(Err(e)) => Err::<Option<T>, E>(e), None => Ok::<Option<T>, E>(None) });
 #[verifier::external_body]
 pub fn slice_to_vec_u8(s: &[u8]) -> (r: Vec<u8>) ensures r@ == s@ { unimplemented!() }
+
+pub assume_specification<T, U> [ Option::<T>::zip ](a: Option<T>, b: Option<U>) -> (out: Option<(T, U)>)
+	ensures out == (match (a, b) { (Some(x), Some(y)) => Some((x, y)), _ => None::<(T, U)> });
